@@ -37,11 +37,14 @@ func keyType(l SNode) string {
 }
 
 var intToks = []string{"5", "7", "-3"}
-var strToks = []string{"5", "bad", "kv", "7"}
+var strToks = []string{"5", "bad", "kv", "7", ""}
 
 func validValue(r *rand.Rand, typ string) string {
-	if typ == "int8" {
+	switch BaseType(typ) {
+	case "int8":
 		return intToks[r.Intn(len(intToks))]
+	case "empty":
+		return "" // the one lexical value of type empty
 	}
 	return strToks[r.Intn(len(strToks))]
 }
@@ -52,13 +55,15 @@ func RandPath(r *rand.Rand, sh Shape) []string {
 	names := []string{}
 	allNames(sh.Kids, &names)
 	junk := func() string {
-		switch r.Intn(6) {
+		switch r.Intn(7) {
 		case 0:
 			return "zz"
 		case 1:
 			return "bad"
 		case 2:
 			return "5"
+		case 3:
+			return ""
 		default:
 			return names[r.Intn(len(names))]
 		}
@@ -83,7 +88,7 @@ walk:
 			p = append(p, validValue(r, keyType(c)))
 			kids = c.Kids
 		default:
-			if c.Typ != "empty" && r.Intn(5) != 0 {
+			if r.Intn(5) != 0 && (BaseType(c.Typ) != "empty" || r.Intn(2) == 0) {
 				p = append(p, validValue(r, c.Typ))
 			}
 			break walk
